@@ -17,7 +17,7 @@ from ..effects import DeepInline, Effects, Slots
 from ..facts import AnalysisError
 from ..sym import enum_members
 from ..terms import const, contains, show, strip_sites, subterms
-from ..util import InlineOnly, NoInline, P, Scan, calls_to, engine, loc, param_at
+from ..util import unwrap_iter, InlineOnly, NoInline, P, Scan, calls_to, engine, loc, param_at
 from .derived import cache_coherence, lifecycle_owner
 from .C10 import TIMING_VALUATIONS, sleep_arg, timing_leaf
 
@@ -72,11 +72,35 @@ def check(run, prog, tier):
         lifecycle_owner(run, prog, scan, "M7", SUBS)
     slots = Slots(prog, scan)
     m = {n: prog.lookup_method(SUBS, n) for n in ("subscribe_eventgroup", "stop_subscribe_eventgroup", "stop", "start", "_subscribe",
-                                                  "_send_subscribe", "_send_start_subscribe", "_send_stop_subscribe", "_group_entries")}
+                                                  "_send_subscribe", "_send_start_subscribe", "_send_stop_subscribe")}
     if not all(m.values()):
         raise AnalysisError(f"{SUBS}: methods vanished: {[k for k, v in m.items() if v is None]}")
     run.analysed(*m.values())
+    # the grouping of the requested pairs by server is found by what it does (it walks the requested set and files each
+    # eventgroup under its server), wherever that code lives: it is analysed in place in the refresh round
+    ge_named = prog.lookup_method(SUBS, "_group_entries")
+    requested = ("attr", me_ := ("self", SUBS), "subscribeentries")
+
+    def grouping_appends(p):
+        """(event, D, ok) for every `D[server].append(eventgroup)` / `D.setdefault(server, []).append(eventgroup)` on the path
+        whose operands are drawn from one element of the requested set"""
+        out = []
+        for e in p.events:
+            grp = e.recv if e.kind == "call" and e.attrname == "append" and e.recv is not None else None
+            D = key = None
+            if grp is not None and grp[0] == "item":
+                D, key = grp[1], grp[2]
+            elif grp is not None and grp[0] == "call" and grp[1][0] == "attr" and grp[1][2] == "setdefault" and grp[2]:
+                D, key = grp[1][1], grp[2][0]
+            if key is None or not contains(key, lambda s_: s_[0] == "elem" and unwrap_iter(s_[1]) == requested):
+                continue
+            val = e.args[0] if e.args else None
+            ok = key[0] == "item" and key[2] == const(1) and val is not None and val[0] == "item" and val[2] == const(0) and key[1] == val[1] \
+                and key[1][0] == "elem" and unwrap_iter(key[1][1]) == requested
+            out.append((e, D, ok))
+        return out
     me = ("self", SUBS)
+    assert me == me_
 
     # ------------------------------------------------------------------ M1 deferral depths
     waves = {}
@@ -95,7 +119,9 @@ def check(run, prog, tier):
            f"deferral depth of the transmission: {waves}" + ("" if uniform else
            " - operations with different depths overtake each other: a StopSubscribe can reach the server before the Subscribe it cancels (or vice versa)"))
     # refresh round: no await between computing the pairs and sending them
-    eng = engine(prog, InlineOnly(names=(), props=False, max_depth=0, unroll=3 if tier == "thorough" else 2, cancel=False))
+    eng = engine(prog, InlineOnly(names=((ge_named.qual,) if ge_named is not None else ()), props=False, max_depth=1,
+                                  unroll=3 if tier == "thorough" else 2, cancel=False))
+    eng.policy.empty_dict_identity = True  # (a grouping built in a `{}` is a new object every round)
     sp = eng.paths(m["_subscribe"], recv=SUBS)
     run.paths += len(sp)
     leaf = timing_leaf(me)
@@ -104,43 +130,63 @@ def check(run, prog, tier):
     sleeps_ok = True
     rounds = 0
     none_break = False
+    grouped_ok = None
+    seen_fresh = False
+    unfilled = set()
     for p in sp:
-        last_group = None
-        awaited_since = False
-        n_rounds = 0
-        for e in p.events:
-            if e.kind == "call" and any(f.qual == m["_group_entries"].qual for f in e.targets):
-                last_group = e
-                awaited_since = False
+        apps = grouping_appends(p)
+        for _e, _D, okg_ in apps:
+            grouped_ok = okg_ if grouped_ok is None else (grouped_ok and okg_)
+        dicts = {strip_sites(D) for _e, D, _ in apps}
+        n_rounds = 1
+        last_await = -1
+        pos_of = {id(x): i_ for i_, x in enumerate(p.events)}  # position on the path (events of code analysed in place
+        #                                                        carry their own numbering)
+        for here, e in enumerate(p.events):
+            if e.kind == "await":
+                last_await = here
                 n_rounds += 1
-            elif e.kind == "await":
-                awaited_since = True
                 a = sleep_arg(e)
                 if a is None or any(eval_term(a, timing_leaf(me, valuation=V)) != V["SUBSCRIBE_REFRESH_INTERVAL"] for V in TIMING_VALUATIONS):
                     sleeps_ok = False
             elif e.kind == "call" and any(f.qual == m["_send_start_subscribe"].qual for f in e.targets):
-                if last_group is None or awaited_since:
-                    fresh = False
-                # destination and entries come from the grouping of the current set
+                # destination and eventgroups are the two halves of one element of a grouping D (its items / its keys),
+                # unfiltered: every server gets its *complete* group
                 a0, a1 = e.args[0] if e.args else None, e.args[1] if len(e.args) > 1 else None
-                if not (a0 is not None and a1 is not None and contains(a0, lambda s: s == last_group.result) and contains(a1, lambda s: s == last_group.result)):
-                    fresh = False
-                # ... and to every server goes its *complete* group, unfiltered
-                G = last_group.result if last_group is not None else None
-                whole = False
-                if G is not None and a0 is not None and a1 is not None:
+                D = None
+                if a0 is not None and a1 is not None:
                     if a0[0] == "item" and a1[0] == "item" and a0[1] == a1[1] and a0[1][0] == "elem" and a0[2] == const(0) and a1[2] == const(1):
-                        it = a0[1][1]
-                        whole = it[0] == "call" and it[1] == ("attr", G, "items")
-                    elif a0[0] == "elem" and a1 == ("item", G, a0):
-                        it = a0[1]
-                        whole = it == G or (it[0] == "call" and it[1] == ("attr", G, "keys"))
-                if not whole:
+                        it = unwrap_iter(a0[1][1])
+                        if it[0] == "call" and it[1][0] == "attr" and it[1][2] == "items":
+                            D = it[1][1]
+                    elif a0[0] == "elem" and a1[0] == "item" and a1[2] == a0:
+                        it = unwrap_iter(a0[1])
+                        if it == a1[1] or (it[0] == "call" and it[1][0] == "attr" and it[1][2] == "keys" and it[1][1] == a1[1]):
+                            D = a1[1]
+                while D is not None and D[0] == "call" and D[1][0] == "ext" and D[1][1] in ("dict", "collections.OrderedDict", "types.MappingProxyType") \
+                        and len(D[2]) == 1 and not D[3]:
+                    D = D[2][0]  # a copy / read-only view of the grouping has the grouping's content
+                if D is None:
                     complete = False
+                    continue
+                # ... and D was filled from the requested set after the last await (a D nothing was filed into on this path
+                # has no elements: such a path is no execution)
+                filed = [x for x, D2, _ok in apps if D2 == D]
+                if not filed:
+                    if not any(strip_sites(D2) == strip_sites(D) for _x, D2, _ok in apps):
+                        unfilled.add(show(D)[:60])
+                    continue
+                if any(pos_of[id(x)] < last_await for x in filed):
+                    fresh = False  # D was filled before the last await
+                else:
+                    seen_fresh = True
         rounds = max(rounds, n_rounds)
         for c, v, _, _ in p.conds:
             if strip_sites(c) == ("cmp", "is", ("attr", ("attr", me, "timings"), "SUBSCRIBE_REFRESH_INTERVAL"), const(None)) and v and p.returns():
                 none_break = True
+    fresh = fresh and seen_fresh
+    if unfilled and not seen_fresh:
+        complete = False  # what is sent is taken from something that is never filled from the requested set
     run.ob("M1", f"{m['_subscribe'].qual}:round-uses-current-set", fresh, loc(m["_subscribe"]),
            "each refresh round groups the current requested set and sends it without an await in between" if fresh else
            "a refresh round sends pairs computed before an await (stale set)")
@@ -263,23 +309,9 @@ def check(run, prog, tier):
             ok = len(c) == 1 and c[0].args == (want, P(fn, param_at(fn, 0, "remote")), P(fn, param_at(fn, 1, "entries")))
             run.ob("M3", f"{fn.qual}:ttl", ok, loc(fn), f"passes TTL {show(c[0].args[0]) if c and c[0].args else '?'}; expected {show(want)}")
     # grouping keeps (eventgroup -> its server)
-    ge = m["_group_entries"]
-    okg = False
-    for p in e0.paths(ge, recv=SUBS):
-        run.paths += 1
-        for e in p.events:
-            grp = e.recv if e.kind == "call" and e.attrname == "append" and e.recv is not None else None
-            key = None
-            if grp is not None and grp[0] == "item":
-                key = grp[2]  # groups[endpoint].append(..)
-            elif grp is not None and grp[0] == "call" and grp[1][0] == "attr" and grp[1][2] == "setdefault" and grp[2]:
-                key = grp[2][0]  # groups.setdefault(endpoint, []).append(..)
-            if key is not None:
-                val = e.args[0] if e.args else None
-                # for eventgroup, endpoint in self.subscribeentries: groups[endpoint].append(eventgroup)
-                okg = key[0] == "item" and key[2] == const(1) and val is not None and val[0] == "item" and val[2] == const(0) and key[1] == val[1] \
-                    and key[1][0] == "elem" and key[1][1] == ("attr", me, "subscribeentries")
-    run.ob("M3", f"{ge.qual}:groups-by-server", okg, loc(ge), "pairs are grouped by their server; each eventgroup stays with the server it was requested for")
+    run.ob("M3", f"{(ge_named or m['_subscribe']).qual}:groups-by-server", bool(grouped_ok), loc(ge_named or m["_subscribe"]),
+           "pairs are grouped by their server; each eventgroup stays with the server it was requested for" if grouped_ok else
+           "no grouping of the requested pairs by their server found in the refresh round (or an eventgroup is filed under something else)")
     # create_subscribe_entry field table
     e3 = engine(prog, InlineOnly(names=(), props=False, max_depth=0))
     egme = ("self", EG)
